@@ -107,10 +107,11 @@ Definition estep (g : eghost) (o : op) : option eghost :=
     | None => None
     end
   | ORestack c w => if is_restack c && eusable g (idx w) then Some g else None
-  | OShow w | OHide w | OFocus w | OSteal w _ | OExpose w | OGetRoot w | OBind w _ _ _ _ _ | OUnbind w _ | OGeom w =>
+  | OShow w | OHide w | OFocus w | OSteal w _ | ONotify w _ | OExpose w | OGetRoot w | OBind w _ _ _ _ _ | OUnbind w _ | OGeom w | OMove w =>
     if eusable g (idx w) then Some g else None
   | OFlush w => if Nat.eqb (idx w) O && eusable g O then Some g else None
-  | OKey | OMouse _ | ONop => Some g
+  | OTouch w j _ => if eusable g (idx w) && (match j with Some a => eusable g (idx a) | None => true end) then Some g else None
+  | OKey | OMouse _ | OResize | ONop => Some g
   (* the library's frames (written into the trace by the dispatch functions only: in a script these two do nothing
      and are not recorded) *)
   | OFrameRef w =>
